@@ -481,6 +481,11 @@ func genHex(t *rapid.T, label string, canonLen int) hexArg {
 		h.Up = true
 	case 4:
 		h.Pfx = true
+	case 5: // "0x" + one byte less: the string has the canonical length, the value does not
+		h.Pfx = true
+		if h.Len > 0 {
+			h.Len--
+		}
 	}
 	return h
 }
